@@ -58,6 +58,23 @@ def strategy(tier):
     return strategy_(tier)
 
 
+def exhaustive(tier):
+    """More than 2048 samples (any block-wise evaluation must cover the last partial block)."""
+    sizes = [(2500, 1, 2), (4500, 2, 1)] if tier == "quick" else [(2500, 1, 2), (4500, 2, 1), (2049, 1, 0), (6000, 3, 3)]
+    for j, (n, ld, hd) in enumerate(sizes):
+        rng = np.random.default_rng(3000 + j)
+        F = ld + hd
+        X = rng.normal(size=(n, F))
+        low = list(range(ld))
+        y = (X[:, low] ** 2).sum(1) + rng.normal(size=n) * 0.5
+        yield {"X": X, "y": y, "low": low, "convex": False, "qlam": np.zeros((0, n)), "qoff": np.zeros(0), "alam": np.zeros((0, n)),
+               "aoff": np.zeros(0), "ahigh": np.zeros((0, F)), "a": 2.0, "b": 1.0, "large": True}
+
+
+EXHAUSTIVE_PARTS = {"quick": ["2 fixed data sets with 2500 and 4500 samples (row-independence and sign relations only)"],
+                    "thorough": ["4 fixed data sets with 2049..6000 samples"]}
+
+
 def check(case, ctx):
     X, y, low = case["X"], case["y"], case["low"]
     n, F = X.shape
@@ -81,6 +98,28 @@ def check(case, ctx):
         ctx.true("selected-zero-residual", float(np.nanmax(np.abs(fm[list(sel)]))) <= 1e-8 * max(1.0, np.abs(X).max()),
                  "high-dimensional residual of a selected sample %.3e" % np.nanmax(np.abs(fm[list(sel)])))
         ctx.true("residual-shape", fm.shape == (n, hd), "score_feature_matrix shape %s" % (fm.shape,))
+    # every sample is scored independently of which other samples are scored in the same call
+    if n >= 2:
+        cut = max(1, n // 3)
+        with ctx.lib("score_samples(split)"):
+            sa, sb = np.asarray(d.score_samples(X[:cut], y[:cut])), np.asarray(d.score_samples(X[cut:], y[cut:]))
+        ctx.close("row-independence:score_samples", np.r_[sa, sb], sc, 1e-12 * max(1.0, ysc), "scores of a batch vs the same rows scored in two calls")
+        if hd > 0:
+            with ctx.lib("score_feature_matrix(split)"):
+                fa, fb = np.asarray(d.score_feature_matrix(X[:cut])), np.asarray(d.score_feature_matrix(X[cut:]))
+            if fa.shape != (cut, hd) or fb.shape != (n - cut, hd) or np.asarray(fm).shape != (n, hd):
+                ctx.fail("row-independence:score_feature_matrix", "shapes %s / %s / %s for %d + %d rows and %d high-dimensional columns"
+                         % (fa.shape, fb.shape, np.asarray(fm).shape, cut, n - cut, hd))
+                return
+            both = np.vstack([fa, fb])
+            if both.shape == np.asarray(fm).shape:
+                ctx.close("row-independence:score_feature_matrix", np.nan_to_num(both), np.nan_to_num(np.asarray(fm)),
+                          1e-12 * max(1.0, np.abs(X).max()), "residuals of a batch vs two calls")
+            else:
+                ctx.fail("row-independence:score_feature_matrix", "shape %s for %d rows and %d high-dimensional columns" % (np.asarray(fm).shape, n, hd))
+    if case.get("large"):
+        ctx.nontrivial = True
+        return          # the LP oracle is quadratic in n: the large enumerated cases use the relations above only
     n_sel = n_unsel = 0
     for i in range(n):
         h = hull_height(P, y, P[i], exclude=i)
